@@ -99,6 +99,19 @@ def ident_expressible(s, param=False):
     return not any(ord(c) == 0 or ord(c) in BIDI for c in s)
 
 
+def num_overflow(s, allow_num):
+    """under allow_num an all-digit name is kept as an integer token (tuple index) by construction;
+    that form can only express values < 2**64 -- larger all-digit names are outside the domain"""
+    return allow_num and s.isascii() and s.isdigit() and int(s) >= 2 ** 64
+
+
+def num_then_dot(out, k):
+    """a bare all-digit name followed by '.': the lexer reads a decimal number (Proofs.ql_num_boundary
+    excludes this continuation; the code generator only writes such names after a dot, where the
+    tokenizer is in its tuple-index state)"""
+    return out.isascii() and out.isdigit() and k.startswith('.')
+
+
 def ql_gen(node):
     return CG.generate_source(node, pretty=False)
 
@@ -153,7 +166,7 @@ def run(fn, arg, k, fl):
         force, ar, an = bool(fl & 1), bool(fl & 2), bool(fl & 4)
         out = Q.quote_ident(arg, force=force, allow_reserved=ar, allow_num=an)
         canon, kind, val, rest, ttext = lex_first(out + k)
-        if ident_expressible(arg):
+        if ident_expressible(arg) and not num_overflow(arg, an) and not num_then_dot(out, k):
             if canon == 'err':
                 flags.append('lexer-rejects')
             elif kind == 'N' and an and ttext == arg and rest == k:
@@ -188,7 +201,8 @@ def run(fn, arg, k, fl):
     if fn == 'T':
         out = CG.ident_to_str(arg, allow_num=bool(fl & 1))
         parts = arg.split('::')
-        if all(ident_expressible(p) for p in parts):
+        if all(ident_expressible(p) and not num_overflow(p, bool(fl & 1)) for p in parts) \
+                and not num_then_dot(out.split('::')[-1], k):
             r = qllex.tokenize(out + k)
             toks = r.get('ok') if 'ok' in r else r.get('partial', [])
             want = []
